@@ -77,6 +77,27 @@ def build_grammar(g, cls=None):
     """g = {"rules": [{"name", "def", "excl"}]} -> (cls, {name: Rule})"""
     cls = cls or fresh_class()
     objs = {}
+    order = g.get("define_order")
+    if order and not g.get("via_text"):
+        # rules defined in another order than listed, rule objects created only when first mentioned (a rule may be looked up, by a
+        # reference inside another definition, long before it is defined)
+        byname = {r["name"]: r for r in g["rules"]}
+        for nm in order:
+            r = byname[nm]
+            if r.get("def") is not None and not r.get("alias_of"):
+                cls(nm, build_expr(cls, r["def"]))
+        for r in g["rules"]:
+            objs[r["name"]] = cls(r["name"])
+        for r in g["rules"]:
+            if r.get("alias_of"):
+                cls(r["name"], objs[r["alias_of"]].definition)
+        for r in g["rules"]:
+            if r.get("excl") is not None:
+                objs[r["name"]].exclude_rule(cls(r["excl"]))
+        for name, seq in (g.get("toggles") or {}).items():
+            for v in seq:
+                objs[name].first_match_alternation = bool(v)
+        return cls, objs
     for r in g["rules"]:
         objs[r["name"]] = cls(r["name"])
     if g.get("via_text"):
@@ -92,6 +113,11 @@ def build_grammar(g, cls=None):
         if r.get("excl") is not None:
             objs[r["name"]].exclude_rule(cls(r["excl"]))
     # toggle sequences through the public property; the last value must be the one in force
+    for name, seq in (g.get("early_toggles") or {}).items():
+        for v in seq:
+            objs[name].first_match_alternation = bool(v)
+    if g.get("late_text"):
+        cls.load_grammar(g["late_text"])            # "=/" lines that come AFTER a flag was set
     for name, seq in (g.get("toggles") or {}).items():
         for v in seq:
             objs[name].first_match_alternation = bool(v)
